@@ -7,6 +7,7 @@
 import MiVerif.Lemmas.PageStart
 import MiVerif.Gen.Entry
 import MiVerif.Props.C16
+import MiVerif.Lemmas.OsAlign
 
 namespace C03
 open GenE
@@ -98,5 +99,29 @@ theorem page_blocks_aligned_to_divisors_of_size_class (cnt seg idx bs psz a : Na
     rw [Nat.add_mul_mod_self_right]; exact h
   have := Nat.mod_mod_of_dvd ((Gen._mi_segment_page_start_from_slice cnt seg (seg + 288 + idx * 96) bs psz).1 + i * bs) ha
   rw [h2] at this; rw [← this]; exact Nat.zero_mod a
+
+/-- **alignment at an offset for blocks that get their own OS allocation** (`_mi_os_alloc_aligned_at_offset` as regenerated from src/os.c;
+    the aligned allocation underneath is an arbitrary function that returned an aligned, non-NULL `start`): the returned pointer `p`
+    satisfies `(p + offset) mod alignment = 0`, lies at or after `start`, and `size` bytes from `p` fit into what was allocated — the
+    OS-level half of `mi_malloc_aligned_at` for huge alignments, for every size, every alignment and every offset up to 32 MiB -/
+theorem generated_os_alloc_at_offset_is_aligned (none : Nat) (allocA : Nat → Nat → Nat → Nat → Nat → Nat)
+    (ps size alignment offset commit al memid start : Nat)
+    (ho : 0 < offset) (ho2 : offset ≤ 33554432) (ha0 : 0 < alignment) (ha : alignment < 2^63) (hsz : size < 2^63)
+    (hse : allocA ((size + ((GenO._mi_align_up offset alignment + 18446744073709551616 - offset) % 18446744073709551616)) % 18446744073709551616)
+             alignment commit al memid = start)
+    (hs0 : start ≠ 0) (hsa : start % alignment = 0) (hsfit : start + size + alignment + 33554432 < 2^64) :
+    ((GenO._mi_os_alloc_aligned_at_offset none allocA ps size alignment offset commit al memid).1 + offset) % alignment = 0 ∧
+    start ≤ (GenO._mi_os_alloc_aligned_at_offset none allocA ps size alignment offset commit al memid).1 ∧
+    (GenO._mi_os_alloc_aligned_at_offset none allocA ps size alignment offset commit al memid).1 + size
+      ≤ start + (size + ((offset + alignment - 1) / alignment * alignment - offset)) := by
+  have e63 : (2:Nat)^63 = 9223372036854775808 := by decide
+  have e64 : (2:Nat)^64 = 18446744073709551616 := by decide
+  rw [e63] at ha hsz
+  rw [e64] at hsfit
+  exact OsAlignL.at_offset_aligned none allocA ps size alignment offset commit al memid start ho ho2 ha0 ha hsz hse hs0 hsa hsfit
+
+-- non-vacuity: 1 MiB at offset 4096 aligned to 64 MiB, the allocation underneath at 2^40
+example : (GenO._mi_os_alloc_aligned_at_offset 0 (fun _ _ _ _ _ => 1099511627776) 4096 1048576 67108864 4096 1 0 0).1 = 1099511627776 + 67108864 - 4096 := by
+  decide
 
 end C03
